@@ -8,6 +8,8 @@ import (
 	"fmt"
 	"os"
 	"os/exec"
+	"os/signal"
+	"syscall"
 	"runtime"
 	"strings"
 	"sync"
@@ -803,6 +805,44 @@ func scenFilter(out *scenOut, r *rng, thorough bool) {
 	}
 	for i := 0; i < runs; i++ {
 		filterOnce(out, r.fork(), i)
+	}
+	filterSignal(out)
+}
+
+// filterSignal: an interrupt that comes from SIGINT is a message like any
+// other: the filter is consulted for it and its verdict is obeyed.
+func filterSignal(out *scenOut) {
+	guard := make(chan os.Signal, 8)
+	signal.Notify(guard, syscall.SIGINT, syscall.SIGTERM)
+	defer signal.Stop(guard)
+	for _, sig := range []syscall.Signal{syscall.SIGINT, syscall.SIGTERM} {
+		ctl := newRecCtl()
+		var seen int32
+		filter := func(name string, m tea.Msg) tea.Msg {
+			if name == "interrupt" || name == "quit" {
+				if atomic.AddInt32(&seen, 1) == 1 {
+					return nil // drop the one that comes from the signal
+				}
+			}
+			return m
+		}
+		run := startProgram(ctl, nil, tea.WithInput(nil), loggingFilter(ctl, filter))
+		waitFor(2*time.Second, func() bool { return ctl.log.has("view-exit", "") })
+		time.Sleep(30 * time.Millisecond) // the handler goroutine has registered
+		syscall.Kill(syscall.Getpid(), sig)
+		desc := fmt.Sprintf("%v delivered to a program whose filter drops the resulting message", sig)
+		ended := run.wait(300 * time.Millisecond)
+		out.record("filter-signal/"+sig.String(), desc)
+		if ended {
+			out.fail(finding{Property: "C16", Class: "new", What: "a signal ended the program although the filter suppressed the message it is forwarded as", Input: desc,
+				Expected: "the filter is consulted and obeyed", Observed: fmt.Sprintf("Run returned %v; filter consulted for it %d times", run.err, atomic.LoadInt32(&seen))})
+			continue
+		}
+		if atomic.LoadInt32(&seen) != 1 {
+			out.fail(finding{Property: "C16", Class: "new", What: "the filter was not consulted for the message a signal is forwarded as", Input: desc, Observed: fmt.Sprint(atomic.LoadInt32(&seen))})
+		}
+		run.p.Quit()
+		run.wait(3 * time.Second)
 	}
 }
 
